@@ -227,8 +227,23 @@ func (e *Env) forAllIn(ob *core.Obligation, g *core.XG, la core.LoopAt, action *
 	}
 	test, enter, ok := g.LoopTest(la)
 	if !ok {
-		ob.Unknown(g.Where(action), "loop shape not recognised (no continuation test found)")
-		return false
+		// a loop without a test in its header (`for { ...; if done { break } ... }`): an iteration starts at the
+		// header's first instruction
+		hd := g.FirstNodeOf(la.At.Ctx, la.L.Header)
+		if hd == nil {
+			ob.Unknown(g.Where(action), "loop shape not recognised (no continuation test found)")
+			return false
+		}
+		sc := assume
+		sc.Start, sc.AtEntry, sc.Result = hd, true, core.Top
+		if isAction(hd) {
+			return true
+		}
+		if w := g.Run(sc).ReachesAvoiding(func(m *core.Node) bool { return m == hd }, isAction); w != nil {
+			ob.Fail(g.Where(action), what+": an iteration can reach the next one without performing the action")
+			return false
+		}
+		return true
 	}
 	sc := assume
 	sc.Start, sc.AtEntry = test, false
